@@ -155,7 +155,27 @@ def check_case(res, engine, dtype, func, kind, requested, lab_tuple, V, oned=Fal
         keys = list(mem.keys())
         order = sorted(keys)
     if not mem and requested is None:
-        return  # nothing but missing labels: no group exists (result layout unspecified)
+        # nothing but missing labels: no group exists -> an empty result, not a failure
+        out = e1.call_reduce(V, labels, **kw)
+        res.evaluations += V.shape[0]
+        res.transitions += 1
+        res.states += 1
+        tags = dict(engine=str(engine), func=func, dtype=dtype, labels=kind, oned=False, all_missing=True)
+        case = dict(engine=engine, dtype=dtype, func=func, label_kind=kind, labels=list(lab_tuple), expected_groups=None, oned=False, finalize_kwargs=fk)
+        if out.kind == "refused" and out.origin == "flox":
+            res.outcomes[f"refused:{out.exc}"] += 1
+            if engine in (None, "numpy"):
+                res.violate("eager-refused", dict(case, values=V), out.brief(), "an empty result (no group exists)", tags=dict(tags, kind="refused", exc=out.exc), size=len(lab_tuple))
+        elif out.kind != "ok":
+            res.outcomes[f"error:{out.exc}"] += 1
+            res.violate("eager-error", dict(case, values=V), out.brief(), "an empty result (no group exists)", tags=dict(tags, kind="error", exc=out.exc), size=len(lab_tuple))
+        elif len(np.asarray(out.groups[0])) != 0 or np.asarray(out.result).shape != V.shape[:-1] + (0,):
+            res.outcomes["wrong-labels"] += 1
+            res.violate("eager-labels", dict(case, values=V), dict(groups=out.groups[0], shape=list(np.asarray(out.result).shape)), dict(groups=[], shape=list(V.shape[:-1]) + [0]),
+                        tags=dict(tags, kind="labels"), size=len(lab_tuple))
+        else:
+            res.outcomes["ok-empty"] += 1
+        return
     exp, scope, present = e1.expected_table(func, V, labels.tolist() if not kind.startswith("datetime") else list(labels), order,
                                             requested=requested, **fk)
     rtol = rm.rtol_for(dtype, func)
